@@ -161,7 +161,8 @@ func (fc *FnCtx) run() (err error) {
 	resetLin()
 	order := fc.findLoops()
 	fc.declare("ac0", sInt)
-	st := &State{heap: map[string]string{}, gen: 0, ac: "ac0"}
+	st := &State{heap: map[string]string{}, hac: map[string]string{}, gen: 0, ac: "ac0"}
+	fc.gens[0].ac = "ac0"
 	fc.assumeGlobal(sx(">", "ac0", "0"))
 	fc.reach = "true"
 	fc.cur = st
@@ -434,12 +435,12 @@ func (fc *FnCtx) loopHeader(h *ssa.BasicBlock, phis []*ssa.Phi) {
 			fc.loopTargets = map[*ssa.BasicBlock]*loopFrame{}
 		}
 		fc.loopTargets[h] = &loopFrame{targets: ts, ac: pre.ac, text: strings.Join(ls.Modifies, ", ")}
-		for _, m := range ls.Modifies {
-			fc.havocTargetNoCheck(env, pre, m)
-		}
 		nac := fc.fresh("ac", sInt)
 		fc.assume(sx(">=", nac, fc.cur.ac))
 		fc.cur.ac = nac
+		for _, m := range ls.Modifies {
+			fc.havocTargetNoCheck(env, pre, m)
+		}
 	} else {
 		if fc.prev.loopAll[h] {
 			fc.havocAll(fc.cur)
@@ -460,6 +461,9 @@ func (fc *FnCtx) loopHeader(h *ssa.BasicBlock, phis []*ssa.Phi) {
 			nac := fc.fresh("ac", sInt)
 			fc.assume(sx(">=", nac, fc.cur.ac))
 			fc.cur.ac = nac
+			for _, k := range keys {
+				fc.cur.hac[k] = nac
+			}
 		}
 	}
 	// 3. assume invariants
@@ -794,8 +798,16 @@ func (fc *FnCtx) unop(x *ssa.UnOp) {
 		lv := fc.load(fc.cur, loc)
 		lv.Ty = x.Type()
 		lv = fc.defV(x.Name(), lv)
-		// refs found in the heap were allocated earlier
-		if w := fc.wfLoaded(lv); w != "true" {
+		// refs found in the heap were allocated before the location was last written
+		bound := fc.cur.ac
+		if cs := fc.e.comps(loc.Ty); len(cs) > 0 {
+			if loc.Kind == locField {
+				bound = fc.acOfKey(fc.cur, loc.S+"."+loc.Pre+cs[0].Suf)
+			} else {
+				bound = fc.acOfKey(fc.cur, fc.e.memKey(loc.Ty)+"."+cs[0].Suf)
+			}
+		}
+		if w := fc.wfAc(lv, bound); w != "true" {
 			fc.assume(w)
 		}
 		fc.vals[x] = lv
